@@ -73,15 +73,22 @@ def locate(facts):
     uniq("tag", [d for d, f in factory.items() if _ret_payload(f["ret"]) == "u8" and f["ptys"] == ["u8"]])
     uniq("take_while", [d for d, f in factory.items() if re.fullmatch(r"&(?:'\w+ )?\[u8\]", _ret_payload(f["ret"]) or "") and len(f["ptys"]) == 1 and not f["ptys"][0].startswith("&")])
     uniq("optional", [d for d, f in factory.items() if (_ret_payload(f["ret"]) or "").startswith("core::option::Option<") and len(f["ptys"]) == 1 and "Node" not in f["ret"]])
-    # header parsers
+    # header parsers: factories `f(root[, path]) -> impl Fn(&[u8]) -> ..` or, uncurried, `f(root[, path], input) -> ..`
+    def is_slice(t):
+        return t.startswith("&") and "[u8]" in t
+    ctxfn = {d: f for d, f in fns.items() if f["ret"].startswith("core::result::Result<(&") and len(f["ptys"]) >= 2 and is_slice(f["ptys"][-1])}
     hdr = {d: f for d, f in factory.items() if "microscpi::tree::Node" in (_ret_payload(f["ret"]) or "")}
     one = [d for d, f in hdr.items() if len(f["ptys"]) == 1]
     two = [d for d, f in hdr.items() if len(f["ptys"]) == 2]
+    for d, f in ctxfn.items():
+        if "microscpi::tree::Node" in (_ret_payload(f["ret"]) or "") and "CommandCall" not in f["ret"]:
+            hdr[d] = f
+            (one if len(f["ptys"]) == 2 else two if len(f["ptys"]) == 3 else []).append(d)
     uniq("common_command_program_header", one)
     top = [d for d in two if any(o in hdr[d]["refs"] for o in two if o != d)]
     uniq("command_program_header", top)
     uniq("compound_command_program_header", [d for d in two if d not in top])
-    uniq("arguments", [d for d, f in factory.items() if _ret_payload(f["ret"]) == "()" and any("Vec<" in t for t in f["ptys"])])
+    uniq("arguments", [d for d, f in list(factory.items()) + list(ctxfn.items()) if _ret_payload(f["ret"]) == "()" and any("Vec<" in t for t in f["ptys"])])
     # direct parsers, by what mentions them
     pr = roles.get("parse")
     if pr:
@@ -101,6 +108,34 @@ def locate(facts):
     return roles
 
 
+# Items of the public interface, addressed by their names (which a maintainer cannot change without changing the
+# interface) wherever in the crate they are defined: moving `Write` into `response/write.rs` behind a re-export changes
+# its definition path, not its meaning.
+PUBLIC = {
+    "Adapter": "microscpi::interface::Adapter", "Interface": "microscpi::interface::Interface", "ErrorHandler": "microscpi::interface::ErrorHandler",
+    "Arbitrary": "microscpi::response::Arbitrary", "Characters": "microscpi::response::Characters", "Response": "microscpi::response::Response",
+    "Write": "microscpi::response::Write", "CommandCall": "microscpi::parser::CommandCall", "ParseError": "microscpi::parser::ParseError",
+    "Error": "microscpi::error::Error", "ErrorCommands": "microscpi::commands::ErrorCommands", "StandardCommands": "microscpi::commands::StandardCommands",
+    "ErrorQueue": "microscpi::error_queue::ErrorQueue", "StaticErrorQueue": "microscpi::error_queue::StaticErrorQueue",
+    "Node": "microscpi::tree::Node", "Value": "microscpi::value::Value",
+}
+
+
+def relocated(text):
+    """{actual path: canonical path} for the public items found under another module path (and only there)"""
+    found = {}
+    for m in re.finditer(r"(microscpi::(?:[a-z_0-9]+::)*)([A-Z][A-Za-z0-9_]*)(?![A-Za-z0-9_])", text):
+        if m.group(2) in PUBLIC:
+            found.setdefault(m.group(2), set()).add(m.group(1) + m.group(2))
+    ren = {}
+    for name, paths in found.items():
+        canon = PUBLIC[name]
+        if canon in paths or len(paths) != 1:
+            continue
+        ren[next(iter(paths))] = canon
+    return ren
+
+
 def canonicalise(facts):
     """Rewrite the fact base so that every located role carries its canonical path. -> (facts, {role: actual}) ; the
     facts are returned unchanged when nothing has to be renamed."""
@@ -114,9 +149,13 @@ def canonicalise(facts):
         if canon in defs:
             continue        # the canonical path is taken by another function: leave everything as it is
         ren[actual] = canon
+    text = json.dumps(facts)
+    moved = relocated(text)
+    for a, c in moved.items():
+        ren[a] = c
+        roles["(public) " + c.split("::")[-1]] = a
     if not ren:
         return facts, roles
-    text = json.dumps(facts)
     # longest first, so that a path that extends another is replaced first
     for actual in sorted(ren, key=len, reverse=True):
         text = re.sub(re.escape(actual) + r"(?![A-Za-z0-9_])", ren[actual].replace("\\", "\\\\"), text)
